@@ -63,6 +63,7 @@ def required_cells(tier):
             "method:tempo": 3, "method:pt": 3, "method:meanfield": 2,
             "meanfield:two-systems": 2, "pt:reimported": 2,
             "cov:degenerate": 3, "guessed-parameters": 4,
+            "initial-state:non-contiguous": 6,
             "cov:nearly-diagonal:pt": 2,
             "cov:nearly-diagonal:tempo": 2}
 
@@ -106,7 +107,10 @@ def run_bath(case):
             sx = np.array([[0, 0.5], [0.5, 0]], complex)
             oper = np.kron(sx, np.eye(2)) * float(rng.uniform(0.5, 2.0))
             o = np.linalg.eigvalsh(oper)
-        oper = (oper + oper.conj().T) / 2
+        if n % 2 == 0:
+            oper = (oper + oper.conj().T) / 2
+        # (odd n: the operator as it comes out of V D V^dagger in floating
+        # point - Hermitian up to rounding, as computed operators are)
         nondiag = float(np.abs(oper - np.diag(np.diag(oper))).max()) > 1e-8
         degenerate = len(set(np.round(o, 8))) < d
         try:
@@ -206,8 +210,19 @@ def run_cov(case):
             # the rotated process tensor goes through export -> import
             kwr = {"reimport": ["file", "simple"][(i // 9) % 2]}
             cells_extra.append("pt:reimported")
+        # the rotated initial state as the expression V rho V^dagger
+        # leaves it in memory (C order), Fortran-ordered, or as the
+        # transposed view of its transpose
+        rho_r = rot(rho0)
+        lay = (i // 3) % 3
+        if lay == 1:
+            rho_r = np.asfortranarray(rho_r)
+        elif lay == 2:
+            rho_r = np.ascontiguousarray(rho_r.T).T
+        if lay:
+            cells_extra.append("initial-state:non-contiguous")
         da = run(s_a, oper, corr, rho0, start, dt, nsteps, params, unique)
-        db = run(s_b, oper_r, corr, rot(rho0), start, dt, nsteps, params,
+        db = run(s_b, oper_r, corr, rho_r, start, dt, nsteps, params,
                  unique, **kwr)
         sa, sb = np.array(da.states), np.array(db.states)
         free = np.array(oqupy.compute_dynamics(
